@@ -20,7 +20,7 @@ NPROC = int(os.environ.get("VERIF_JOBS", "16"))
 GOENV = dict(os.environ, GOFLAGS="-mod=mod", GOPROXY="off", GOSUMDB="off", GOTOOLCHAIN="local",
              GOCACHE=os.path.join(BUILD, "gocache"))
 
-HARNESS_CMDS = ["codec", "session", "stream", "extract", "stress", "race", "timing"]
+HARNESS_CMDS = ["codec", "session", "stream", "extract", "stress", "race", "timing", "lifecycle"]
 
 TRUSTED_BASE = [
     "Coq 8.16.1 kernel (coqc; vm_compute used for finite-table facts; native_compute not used)",
